@@ -225,6 +225,29 @@ def install():
     qp.Queue = DelayQueue
     R.queue = qp
 
+    RealPath = R.Path
+
+    class DelayPath(RealPath):
+        # pre-emption points around the file-system calls of the snapshot cache (check-then-act races)
+        def is_dir(self):
+            r = super().is_dir()
+            Delays.point('path.is_dir')
+            return r
+
+        def exists(self):
+            r = super().exists()
+            Delays.point('path.exists')
+            return r
+
+        def mkdir(self, *a, **k):
+            Delays.point('path.mkdir')
+            return super().mkdir(*a, **k)
+
+        def write_bytes(self, data):
+            Delays.point('path.write_bytes')
+            return super().write_bytes(data)
+    R.Path = DelayPath
+
     Base = R.ThreadPoolExecutor
 
     class DelayExecutor(Base):
